@@ -11,6 +11,7 @@ class BoolGen(object):
         self.counters = {}     # name -> value
         self.nums = {}         # macro name -> value
         self.strs = {}         # macro name -> string
+        self.lens = {}         # length register name -> (text of its value, value in pt)
         self.bools = {}        # boolean name -> value
         self.features = set()
         self.adj = set()
@@ -49,6 +50,20 @@ class BoolGen(object):
 
     def dim(self):
         r = self.r
+        if r.random() < 0.25:
+            # a length register: bare, negated, or with a factor
+            if not self.lens or r.random() < 0.3:
+                self.lens['zql' + alpha(len(self.lens))] = r.choice([('3cm', Fraction(3) * PT['cm']), ('10pt', Fraction(10)), ('0pt', Fraction(0)), ('2.5mm', Fraction(5, 2) * PT['mm'])])
+            n = r.choice(sorted(self.lens))
+            v = self.lens[n][1]
+            self.features.add('length-register-operand')
+            k = r.random()
+            if k < 0.5:
+                return '\\%s' % n, v
+            if k < 0.75:
+                return '-\\%s' % n, -v
+            f = r.choice(['2', '0.5', '1.5'])
+            return f + '\\%s' % n, Fraction(f) * v
         u = r.choice(UNITS)
         whole = r.choice([0, 1, 2, 3, 5, 10, 20, 72])
         frac = r.choice(['', '', '.5', '.25'])
@@ -153,6 +168,9 @@ class BoolGen(object):
             s += '\\def\\%s{%d}' % (n, v)
         for n, v in sorted(self.strs.items()):
             s += '\\def\\%s{%s}' % (n, v)
+        for n, (txt, v) in sorted(self.lens.items()):
+            # (assigned the TeX way: plasTeX does not carry out \setlength -- a design limit, DESIGN.md section 8)
+            s += '\\newlength{\\%s}\\%s=%s ' % (n, n, txt)
         for n, v in sorted(self.bools.items()):
             decl = self.r.choice(['newboolean', 'newboolean', 'provideboolean', 'newif'])
             if decl == 'newif':
